@@ -266,6 +266,46 @@ func runC17(e *core.Env) error {
 			e.Add(core.Case{Op: "dechex " + core.Hex([]byte(s)), Impl: impl, Spec: "ok " + core.Hex(ref), Nontrivial: true, Tags: []string{"dechex"}})
 		}
 	}
+	// 3c. eth.DecodeUint64 / eth.EncodeUint64 (every request names its blocks through the latter): any
+	// spelling of a quantity (prefix 0x / 0X / none, either case, leading zeros, odd or even digit count),
+	// the empty string, non-hex characters, values beyond 64 bits; reference = strconv on the stripped digits
+	{
+		var ss []string
+		for _, v := range boundary {
+			for _, f := range []string{"%x", "%X", "0%x", "00%x", "000%X"} {
+				d := fmt.Sprintf(f, v)
+				for _, pre := range []string{"", "0x", "0X"} {
+					ss = append(ss, pre+d)
+				}
+			}
+		}
+		for i := 0; i < e.N(150, 3000); i++ {
+			v := r.U64() >> uint(r.Intn(64))
+			d := fmt.Sprintf(core.Pick(r, []string{"%x", "%X", "0%x"}), v)
+			ss = append(ss, core.Pick(r, []string{"", "0x", "0X"})+d)
+		}
+		ss = append(ss, "", "0x", "0X", "x", "0x0x1", "0xg", "g", "0x1g", "0x-1", "+1", "0x_1", "0x1_0", "10000000000000000", "0x10000000000000000", "0xffffffffffffffffff", " 1", "0x 1")
+		for _, s := range ss {
+			impl := core.Protect(func() string { return fmt.Sprintf("ok %d", eth.DecodeUint64(s)) })
+			t := s
+			if len(t) >= 2 && t[0] == '0' && (t[1] == 'x' || t[1] == 'X') {
+				t = t[2:]
+			}
+			ref := "panic"
+			if v, ok := new(big.Int).SetString(t, 16); ok && t != "" && !strings.ContainsAny(t, "+-_ ") && v.IsUint64() {
+				ref = fmt.Sprintf("ok %d", v.Uint64())
+			}
+			e.Add(core.Case{Op: "decu64 " + core.Hex([]byte(s)), Impl: impl, Spec: ref, Nontrivial: true, Tags: []string{"decu64", strings.SplitN(impl, " ", 2)[0]}})
+		}
+		vals := append([]uint64{}, boundary...)
+		for i := 0; i < e.N(150, 3000); i++ {
+			vals = append(vals, r.U64()>>uint(r.Intn(64)))
+		}
+		for _, v := range vals {
+			impl := core.Protect(func() string { return "ok " + eth.EncodeUint64(v) })
+			e.Add(core.Case{Op: fmt.Sprintf("encu64 %d", v), Impl: impl, Spec: "ok 0x" + new(big.Int).SetUint64(v).Text(16), Nontrivial: true, Tags: []string{"encu64"}})
+		}
+	}
 	// 4. bint
 	vals := append([]uint64{}, boundary...)
 	for i := 0; i < e.N(300, 5000); i++ {
